@@ -8,12 +8,14 @@ pub mod c04;
 pub mod spans;
 pub mod c05;
 pub mod c06;
+pub mod c07;
 pub mod c08;
 pub mod c09;
 pub mod c10;
 pub mod c11;
 pub mod c12;
 pub mod c13;
+pub mod c14;
 pub mod c15;
 pub mod c16;
 pub mod c19;
@@ -37,6 +39,8 @@ pub fn dispatch_check(id: &str, tier: Tier, seed: u64) -> i32 {
         "C15" => run_check(&c15::C15, tier, seed),
         "C09" => run_check(&c09::C09, tier, seed),
         "C10" => run_check(&c10::C10, tier, seed),
+        "C07" => run_check(&c07::C07, tier, seed),
+        "C14" => run_check(&c14::C14, tier, seed),
         _ => {
             eprintln!("harness error: unknown property {id}");
             2
@@ -62,6 +66,8 @@ pub fn dispatch_replay(id: &str, file: &str) -> i32 {
         "C15" => run_replay(&c15::C15, file),
         "C09" => run_replay(&c09::C09, file),
         "C10" => run_replay(&c10::C10, file),
+        "C07" => run_replay(&c07::C07, file),
+        "C14" => run_replay(&c14::C14, file),
         _ => {
             eprintln!("harness error: unknown property {id}");
             2
